@@ -40,12 +40,16 @@ def case_from(laid, opts, sanitize):
     return {'lex': laid, 'opts': opts, 'sanitized': san}
 
 
-def script_cases(options, sanitize, min_statements=1, max_statements=3, comments=12, **lay):
+def script_cases(options, sanitize, min_statements=1, max_statements=3, comments=12, procedural=False, **lay):
     plain = G.script(min_statements, max_statements, comments=comments, **lay)
     # a quarter of the scripts are CASE-heavy (CASE with AND/OR conditions in select list, WHERE and ORDER BY)
     heavy = G.script(1, 2, comments=comments, stmt=G.case_heavy_select(), **lay)
     # options first: values drawn after a large structure are biased towards their simplest form
-    return st.tuples(options, st.one_of(plain, plain, plain, heavy)).map(
+    alts = [plain, plain, plain, heavy]
+    if procedural:
+        from gen import proc
+        alts.append(proc.script(depth=2, max_pre=1, max_post=1, comments=comments, **lay))
+    return st.tuples(options, st.one_of(*alts)).map(
         lambda t: case_from(t[1], t[0], sanitize))
 
 
